@@ -259,15 +259,6 @@ struct FileData {
 	evaluating: bool,
 }
 impl FileData {
-	fn new_string(data: IStr) -> Self {
-		Self {
-			string: Some(data),
-			bytes: None,
-			parsed: None,
-			evaluated: None,
-			evaluating: false,
-		}
-	}
 	fn new_bytes(data: IBytes) -> Self {
 		Self {
 			string: None,
@@ -349,11 +340,9 @@ impl State {
 			Entry::Occupied(ref mut d) => d.get_mut(),
 			Entry::Vacant(v) => {
 				let data = self.import_resolver().load_file_contents(&path)?;
-				v.insert(FileData::new_string(
-					std::str::from_utf8(&data)
-						.map_err(|_| ImportBadFileUtf8(path.clone()))?
-						.into(),
-				))
+				// Kept as bytes even when they are not valid UTF-8: the failure is reported below,
+				// and the file does not need to be read again by later imports of any kind.
+				v.insert(FileData::new_bytes(data.as_slice().into()))
 			}
 		};
 		Ok(file
@@ -395,11 +384,9 @@ impl State {
 			Entry::Occupied(ref mut d) => d.get_mut(),
 			Entry::Vacant(v) => {
 				let data = self.import_resolver().load_file_contents(&path)?;
-				v.insert(FileData::new_string(
-					std::str::from_utf8(&data)
-						.map_err(|_| ImportBadFileUtf8(path.clone()))?
-						.into(),
-				))
+				// Kept as bytes even when they are not valid UTF-8: the failure is reported below,
+				// and the file does not need to be read again by later imports of any kind.
+				v.insert(FileData::new_bytes(data.as_slice().into()))
 			}
 		};
 		if let Some(val) = &file.evaluated {
